@@ -458,7 +458,7 @@ def main(tier, replay=None):
     drv, l1 = vf.ocaml_build(AREA) if os.path.exists(os.path.join(vf.coq_dir(AREA), "ocaml", "model.ml")) else (None, "extraction did not run")
     if drv is None:
         chk.broke("extracted model driver does not build", l1)
-    himpl, l2 = vf.build_harness("c05_gfq.C")
+    himpl, l2 = build_harness_retry("c05_gfq.C")
     if himpl is None:
         chk.broke("implementation harness c05_gfq.C does not compile against /repo", l2)
         return chk.finish()
@@ -765,5 +765,269 @@ def main(tier, replay=None):
     return chk.finish()
 
 
+def build_harness_retry(src, **kw):
+    """vf.build_harness; retried when the shared library cache entry was pruned by a concurrent run between
+    build_repo_lib() and the link step (many checks share build/cache)."""
+    for attempt in range(3):
+        h, l = vf.build_harness(src, **kw)
+        if h is not None or "libgivaro_verif.a" not in l:
+            return h, l
+    return h, l
+
+
 def ext_part(chk, rng, tier, dist):
-    pass
+    """Extension<GFqDom<int64_t>|Modular<int64_t>>, GFqExtFast/GFqExt<int32_t>, GF2 against the F_p[X]/(f) oracle.
+    (GFqKronecker cannot be compiled in this tree: see harness/c05_ext.C.)"""
+    h, l = build_harness_retry("c05_ext.C")
+    if h is None:
+        chk.broke("implementation harness c05_ext.C does not compile against /repo", l)
+        return
+    L = []          # (impl line, kind, meta)
+    # --- GF2: every variant, both overloads (Element&, BitReference), all operands
+    L.append(("gf2desc", "gf2desc", None))
+    for form in "eb":
+        for v in ("add", "sub", "mul", "div", "addin", "subin", "mulin", "divin"):
+            for a in (0, 1):
+                for b in (0, 1):
+                    L.append(("gf2 %s %s %d %d" % (v, form, a, b), "gf2", (v, a, b, 0)))
+        for v in ("neg", "inv", "negin", "invin"):
+            for a in (0, 1):
+                L.append(("gf2 %s %s %d" % (v, form, a), "gf2", (v, a, 0, 0)))
+        for v in ("axpy", "axmy", "maxpy", "axpyin", "axmyin", "maxpyin"):
+            for a in (0, 1):
+                for b in (0, 1):
+                    for c in (0, 1):
+                        L.append(("gf2 %s %s %d %d %d" % (v, form, a, b, c), "gf2", (v, a, b, c)))
+        for x in (0, 1, 2, 3, 2**64 + 1, 2**64, 10**30 + 7):
+            L.append(("gf2 init %s %d" % (form, x), "gf2", ("init", x, 0, 0)))
+    for a in (0, 1):
+        for b in (0, 1):
+            L.append(("gf2 pred e %d %d" % (a, b), "gf2", ("pred", a, b, 0)))
+    # --- Extension<>
+    E3 = ["add", "sub", "mul", "div", "addin", "subin", "mulin", "divin"]
+    E1 = ["neg", "inv", "negin", "invin", "assign"]
+    E4 = ["axpy", "axpyin", "maxpy", "maxpyin", "axmy", "axmyin"]
+    exts = [("gfq", "bf", 3, 2), ("mod", "bf", 3, 3), ("gfq", "pe", 5, 3), ("gfq", "bf", 2, 5), ("mod", "bf", 7, 2), ("gfq", "pe", 2, 7),
+            ("gfq", "pol", 3, 4), ("mod", "pol", 5, 2), ("gfq", "pol", 2, 8), ("mod", "pol", 11, 3), ("gfq", "bf", 1009, 4), ("gfq", "pe", 65521, 3),
+            ("mod", "bf", 2, 1), ("gfq", "bf", 13, 8)]
+    if tier == "thorough":
+        exts += [(b, c, p, k) for b in ("gfq", "mod") for c in ("bf", "pol") for (p, k) in [(2, 2), (2, 3), (3, 5), (5, 4), (7, 3), (17, 2), (251, 2), (4099, 5)]]
+    per = 10 if tier == "quick" else 80
+    for (base, ctor, p, k) in exts:
+        q = p ** k
+        line = "ext %s %s %d %d" % (base, ctor, p, k)
+        mod = None
+        if ctor == "pol":
+            mod = find_irreducible(rng, p, k, monic=(p == 2 or rng.chance(1, 2))) if q <= 10**6 else None
+            if mod is None:
+                continue
+            line += " | " + " ".join(map(str, mod))
+        L.append((line, "ext", (base, ctor, p, k, mod)))
+        edge = [0, 1, q - 1, p - 1, p % q, (q - 1) // 2]
+        def el():
+            return rng.choice(edge) if rng.chance(1, 4) else rng.range(0, q - 1)
+        for v in E3:
+            for _ in range(per):
+                L.append(("eop %s %d %d" % (v, el(), el()), "eop", v))
+        for v in E1:
+            for _ in range(per):
+                L.append(("eop %s %d" % (v, el()), "eop", v))
+        for v in E4:
+            for _ in range(per):
+                L.append(("eop %s %d %d %d" % (v, el(), el(), el()), "eop", v))
+        for _ in range(per):
+            L.append(("eop pred %d %d" % (el(), el()), "eop", "pred"))
+            L.append(("eop initI %d" % rng.range(0, q - 1), "eop", "initI"))
+            L.append(("eop initS %d" % rng.choice([0, 1, p - 1, p, p + 1, 2 * p + 3, rng.range(0, 2**40)]), "eop", "initS"))
+        L.append(("eop initI 0", "eop", "initI"))
+        L.append(("eop convzero %d" % rng.range(1, q - 1), "eop", "convzero"))
+    # --- GFqExtFast / GFqExt
+    gx = [("fast", 3, 2), ("ext", 3, 4), ("fast", 5, 3), ("fast", 2, 4), ("ext", 7, 2), ("fast", 2, 8), ("fast", 3, 4), ("ext", 5, 2), ("fast", 11, 2), ("fast", 2, 2)]
+    for (cls, p, k) in gx:
+        q = p ** k
+        bits = 53 // (2 * k - 1)
+        B = 1 << bits
+        maxn = B // (p - 1) // (p - 1) // k
+        pceil = 1
+        pp = 2
+        while pp < p:
+            pp <<= 1
+            pceil += 1
+        modout = (1 << (pceil * k)) - 1
+        L.append(("gext %s %d %d" % (cls, p, k), "gext", (cls, p, k, bits, maxn, modout)))
+        def ez():
+            return rng.choice([0, 1, q - 1, (q - 1) // 2]) if rng.chance(1, 4) else rng.range(0, q - 1)
+        for v in ("add", "sub", "mul", "div", "neg", "inv", "axpy", "maxpy", "axmy"):
+            for _ in range(per):
+                a, b, c = ez(), ez(), ez()
+                if v in ("div",) and b == 0:
+                    b = 1
+                if v == "inv" and a == 0:
+                    a = q - 1
+                L.append(("gop %s %d %d %d" % (v, a, b, c), "gop", (v, a, b, c)))
+        for a in [0, 1, q - 1] + [rng.range(0, q - 1) for _ in range(per)]:
+            L.append(("gconv %d" % a, "gconv", a))
+        if cls == "fast":
+            # decode of a Kronecker-packed accumulator: sum_i v_i B^i, i < 2k-1, v_i below the documented bound
+            bound = min(B - 1, max(1, maxn) * k * (p - 1) ** 2)
+            for _ in range(2 * per):
+                vs = [rng.choice([0, 1, p - 1, p, bound, rng.range(0, bound)]) for _ in range(2 * k - 1)]
+                L.append(("ginit %d" % sum(x << (bits * i) for i, x in enumerate(vs)), "ginit", vs))
+            for n in [1, 2, min(maxn, 3), min(maxn, 8), maxn if maxn <= 64 else 64] * (2 if tier == "quick" else 10):
+                n = max(1, n)
+                xs = [ez() if not rng.chance(1, 5) else q - 1 for _ in range(n)]
+                ys = [ez() if not rng.chance(1, 5) else q - 1 for _ in range(n)]
+                L.append(("gdot %d | %s | %s" % (n, " ".join(map(str, xs)), " ".join(map(str, ys))), "gdot", (xs, ys)))
+        else:
+            for d in [0, 1, p - 1, p, modout - 1] + [rng.range(0, modout - 1) for _ in range(per)]:
+                vs = []
+                m = d
+                for _ in range(2 * k - 1):
+                    vs.append(m & (B - 1))
+                    m >>= bits
+                L.append(("ginit %d" % d, "ginit", vs))
+    rc, out, err = vf.run_lines(h, "\n".join(x[0] for x in L) + "\n", timeout=900)
+    out = [o for o in out if not o.startswith("WARNING")]
+    if rc != 0 or len(out) != len(L):
+        chk.broke("implementation harness c05_ext failed (rc=%s, %d/%d lines)" % (rc, len(out), len(L)), err[-2000:])
+        return
+    P = None
+    ctx = None
+    l2p = None
+    for (line, kind, meta), got in zip(L, out):
+        dist["ext:" + kind] = dist.get("ext:" + kind, 0) + 1
+        if kind == "gf2desc":
+            chk.count(("gf2desc",), nontrivial=False)
+            if got != "2 2 2 2 0 1 1 2 2 0 1":
+                chk.fail_input("GF2::cardinality/characteristic/constants", "descriptor", {"line": line}, "2 2 2 2 0 1 1 2 2 0 1", got)
+        elif kind == "gf2":
+            v, a, b, c = meta
+            chk.count(("gf2", line), nontrivial=bool(a))
+            if v in ("add", "sub", "addin", "subin"): e = a ^ b
+            elif v in ("mul", "mulin"): e = a & b
+            elif v in ("div", "divin"): e = a if b else None
+            elif v in ("neg", "negin"): e = a
+            elif v in ("inv", "invin"): e = a if a else None
+            elif v in ("axpy", "axmy", "maxpy"): e = (a & b) ^ c
+            elif v in ("axpyin", "axmyin", "maxpyin"): e = a ^ (b & c)
+            elif v == "init": e = a % 2
+            elif v == "pred": e = "%d%d%d%d%d" % (a == 0, a == 1, a == 1, a == 1, a == b)
+            if e is None:
+                continue
+            if got != str(e):
+                chk.fail_input("GF2::" + v, "bitref" if " b " in line else "element", {"line": line}, e, got)
+        elif kind == "ext":
+            base, ctor, p, k, mod = meta
+            ctx = "Extension<%s>/%s GF(%d^%d)" % ("GFqDom<int64_t>" if base == "gfq" else "Modular<int64_t>", ctor, p, k)
+            t = got.split()
+            P = None
+            chk.count(("ext", line))
+            if len(t) < 13 or t[0] != "E":
+                chk.fail_input("Extension::Extension", "constructor", {"line": line}, "a field", got)
+                continue
+            q = p ** k
+            exp = [str(q if q < 2**64 else q % 2**64), str(q), str(p), str(p), str(k), str(k)]
+            if t[1:7] != exp:
+                chk.fail_input("Extension::cardinality/characteristic/exponent", "descriptor", {"line": line}, exp, t[1:7])
+            irred = int(t[8])
+            P = PF(p, k, irred)
+            if irred >= p ** (k + 1) or (k > 1 and not P.irreducible()) or P.f[k] == 0:
+                chk.fail_input("Extension::Extension", "modulus-reducible", {"line": line, "irred": irred}, "irreducible of degree %d" % k, irred)
+                P = None
+                continue
+            if mod is not None and irred != sum((c % p) * p ** i for i, c in enumerate(mod)):
+                chk.fail_input("Extension::Extension(Pol_t,Irred)", "stored-modulus", {"line": line}, mod, irred)
+            if t[10:13] != ["0", "1", str(p - 1 if p > 2 else 1)]:
+                chk.fail_input("Extension::zero/one/mOne", "constants", {"line": line}, ["0", "1", str(p - 1)], t[10:13])
+        elif kind == "eop":
+            if P is None:
+                continue
+            v = meta
+            a = [int(x) for x in line.split()[2:]] + [0, 0, 0]
+            chk.count((ctx, line), nontrivial=(a[0] != 0))
+            case = {"field": ctx, "irred": P.num(P.f[:P.k]) + P.f[P.k] * P.p ** P.k, "line": line}
+            if v == "pred":
+                mone = P.num(P.neg(P.one))
+                e = "%d%d%d%d" % (a[0] == 0, a[0] == 1, a[0] == mone, a[0] == a[1])
+                if got != e:
+                    chk.fail_input("Extension::isZero/isOne/isMOne/areEqual", "predicate", case, e, got)
+                continue
+            if v == "convzero":
+                if got != "0":
+                    chk.fail_input("Extension::convert(Integer&)", "zero-element", case, 0, got,
+                                   "convert of the zero element (a - a): Poly1PadicDom::eval dereferences rbegin() of the empty vector")
+                continue
+            if v == "initI":
+                e = a[0]
+            elif v == "initS":
+                e = a[0] % P.p
+            elif v == "assign":
+                e = a[0]
+            else:
+                ee = spec_op(P, v, P.elt(a[0]), P.elt(a[1]), P.elt(a[2]))
+                if ee is None:
+                    continue
+                e = P.num(ee)
+            if got != str(e):
+                chk.fail_input("Extension::" + v, "scalar", case, e, got, "result differs from polynomial arithmetic modulo the stored irreducible")
+        elif kind == "gext":
+            cls, p, k, bits, maxn, modout = meta
+            ctx = "GFqExt%s<int32_t> GF(%d^%d)" % ("Fast" if cls == "fast" else "", p, k)
+            t = got.split()
+            P = None
+            chk.count(("gext", line))
+            if len(t) < 9 or t[0] != "G":
+                chk.fail_input("GFqExtFast::GFqExtFast", "constructor", {"line": line}, "a field", got)
+                continue
+            q = p ** k
+            if [int(t[1]), int(t[4]), int(t[5]), int(t[6])] != [q, q, p, k]:
+                chk.fail_input("GFqExtFast::cardinality/characteristic/exponent", "descriptor", {"line": line}, [q, q, p, k], t[1:7])
+            P = PF(p, k, int(t[2]))
+            G = P.elt(int(t[3]))
+            if (k > 1 and not P.irreducible()) or not P.order_is_full(G):
+                chk.fail_input("GFqExtFast::GFqExtFast", "modulus-or-generator", {"line": line}, "irreducible modulus, primitive generator", t[2:4])
+                P = None
+                continue
+            l2p, p2l, pl1 = P.tables(G)
+            if hash3(l2p) != t[8]:
+                chk.fail_input("GFqExtFast tables", "table-entry", {"line": line}, hash3(l2p), t[8])
+                P = None
+            gmeta = meta
+        elif P is None:
+            continue
+        elif kind == "gop":
+            v, a, b, c = meta
+            chk.count((ctx, line), nontrivial=(a != 0))
+            ee = spec_op(P, v, P.elt(l2p[a]), P.elt(l2p[b]), P.elt(l2p[c]))
+            if ee is None:
+                continue
+            if not got.lstrip("-").isdigit() or not (0 <= int(got) < len(l2p)) or P.elt(l2p[int(got)]) != ee:
+                chk.fail_input("GFqExtFast::" + v, "scalar", {"field": ctx, "line": line}, p2l[P.num(ee)], got)
+        elif kind == "gconv":
+            bits = gmeta[3]
+            chk.count((ctx, line), nontrivial=(meta != 0))
+            e = sum(c << (bits * i) for i, c in enumerate(P.elt(l2p[meta])))
+            if got != str(e):
+                chk.fail_input("GFqExtFast::convert(double&)", "packed", {"field": ctx, "line": line}, e, got)
+        elif kind in ("ginit", "gdot"):
+            chk.count((ctx, line))
+            if kind == "ginit":
+                vs = meta
+            else:
+                xs, ys = meta
+                k = P.k
+                vs = [0] * (2 * k - 1)
+                for xa, ya in zip(xs, ys):
+                    A, Bc = P.elt(l2p[xa]), P.elt(l2p[ya])
+                    for i in range(k):
+                        for j in range(k):
+                            vs[i + j] += A[i] * Bc[j]
+            # sum_i (v_i mod p) X^i modulo f
+            e = P.zero
+            X = P.elt(P.p) if P.k > 1 else P.zero
+            for c in reversed(vs):
+                e = P.add(P.mul(e, X), P.elt(c % P.p))
+            t = got.split()
+            if len(t) != 2 or t[1] != str(P.num(e)):
+                chk.fail_input("GFqExtFast::init(double)" if gmeta[0] == "fast" else "GFqExt::init(double)", kind, {"field": ctx, "line": line, "coefficients": vs},
+                               P.num(e), got, "decoding of the Kronecker-packed double is not sum (v_i mod p) X^i mod f")
